@@ -18,9 +18,10 @@ PY_MIN = "PyLib PyLibSd PyLibCore PyLibSd2 PySrcSdBase PySrcSdMin PySrcSdMinFact
 PY_PERC = "PyLib PyLibSd PyLibPerc PySrcPerc PySrcPercFacts PyLibDrivers PySrcDrivers PySrcDriversFacts"       # space_utils.percolate_space_strict, percolation_conflicts
 PY_SCC = "PyLib PyLibSd PyLibCore PyLibSd2 PyLibScc PySrcSdBase PySrcSdScc PySrcSdSccFacts"     # expand_source_SCCs.attach_scc_subdiagram
 PY_SCCMAIN = PY_SCC + " Control PyLibControl PySrcSdSccMain PySrcSdSccMainFacts"     # expand_source_SCCs.expand_source_SCCs
+PY_API = PY_SCCMAIN + " PyLibBlocks PySrcSdBlocks PySrcApi PySrcEndToEndScc"     # public methods expand_scc / expand_block / build; expand_source_blocks
 PY_CONTROL = "PyLib PyLibSd PyLibPerc PyLibCore PyLibControl PySrcControl PySrcControlFacts PySrcFindDriversFacts PySrcControlCorollaries"    # control.find_drivers, drivers_of_succession
 PY_ASEEDS = PY_MIN + " Candidates Blocks ASeeds PySrcSdASeeds PySrcSdASeedsFacts"     # _sd_algorithms/expand_attractor_seeds.py
-EXTRA_IMPORTS = {"C02": PY_SD + " " + PY_CORE2 + " PySrcEndToEnd", "C01": PY_SCCMAIN, "C03": PY_SD + " " + PY_ASEEDS + " PySrcComplFacts " + PY_SCCMAIN, "C04": PY_SD + " " + PY_CORE, "C05": PY_CORE2 + " " + PY_MIN, "C13": PY_SD + " " + PY_TARGET + " " + PY_ASEEDS + " PySrcTermFacts", "C14": PY_CORE2 + " " + PY_SCC, "C15": PY_SD + " " + PY_TARGET + " " + PY_ASEEDS, "C16": "PyLib PyLibPickle PySrcPickle PySrcPickleFacts " + PY_CORE2,
+EXTRA_IMPORTS = {"C02": PY_SD + " " + PY_CORE2 + " PySrcEndToEnd", "C01": PY_API, "C03": PY_SD + " " + PY_ASEEDS + " PySrcComplFacts " + PY_API, "C04": PY_SD + " " + PY_CORE, "C05": PY_CORE2 + " " + PY_MIN, "C13": PY_SD + " " + PY_TARGET + " " + PY_ASEEDS + " PySrcTermFacts " + PY_API, "C14": PY_CORE2 + " " + PY_SCC, "C15": PY_SD + " " + PY_TARGET + " " + PY_ASEEDS, "C16": "PyLib PyLibPickle PySrcPickle PySrcPickleFacts " + PY_CORE2,
                  "C06": PY_SPACE + " " + PY_TARGET + " PySrcEndToEndControl " + PY_CONTROL, "C07": PY_CONTROL, "C10": PY_PLACE, "C11": PY_PERC, "C19": PY_SD + " " + PY_CORE, "C20": PY_KEY + " " + PY_CORE2 + " PyLibSd PyLibPerc PySrcIso PySrcIsoFacts"}
 
 def imports_for(pid):
@@ -57,6 +58,7 @@ decide on every replayed run.  The source-SCC strategy is modelled (SCC.v) and r
 the 'at least one' clause holds: expand_scc_AttrServed / expand_scc_every_attractor_reported (no attractor is lost).""",
  theorems=[("source_expand_source_SCCs", "py_expand_source_SCCs_spec", "translator tie: the function GENERATED from the current text of expand_source_SCCs.expand_source_SCCs (PySrcSdSccMain.v: root sources, BFS over the levels, recursion through the default expander into the sub-diagrams of the source SCCs, attachment by the generated attach_scc_subdiagram) does what the model's SCC.scc_main does on every diagram satisfying SCCTerm.SI, for every fuel, tape and nesting depth"),
            ("source_expand_source_SCCs_fresh", "py_expand_source_SCCs_fresh", None),
+           ("source_text_expand_scc_every_attractor_reported", "py_api_expand_scc_every_attractor_reported", "C01 ('no attractor is lost') for the SOURCE TEXT of the source-SCC strategy: when the generated public method expand_scc (PySrcApi.v, a call of the generated expand_source_SCCs) returns True on a fresh diagram without the motif-avoidance shortcut, every attractor is reported by an expanded node whose seeds are one-to-one with its own attractors"),
            ("filter_exact", "filter_exact", "given covering candidates, the filter returns exactly one seed per attractor of the node, and the sets are the attractors"),
            ("filter_exact_seeds_only", "filter_exact_seeds_only", "the seeds_only shortcut (last candidate of a pseudo-minimal node) is sound"),
            ("check_seeds_ok", "check_seeds_ok", "the verdict predicate run on the implementation's output is exact"),
@@ -148,6 +150,7 @@ expand_scc_LeafOK, expand_scc_MinFound) -- although the diagram it builds is not
 statement has a theorem.""",
  theorems=[("source_expand_source_SCCs", "py_expand_source_SCCs_spec", "translator tie: the function GENERATED from the current text of expand_source_SCCs.expand_source_SCCs (PySrcSdSccMain.v: root sources, BFS over the levels, recursion through the default expander into the sub-diagrams of the source SCCs, attachment by the generated attach_scc_subdiagram) does what the model's SCC.scc_main does on every diagram satisfying SCCTerm.SI, for every fuel, tape and nesting depth"),
            ("source_expand_source_SCCs_fresh", "py_expand_source_SCCs_fresh", None),
+           ("source_text_expand_scc_complete", "py_api_expand_scc_complete", "C03 for the SOURCE TEXT of the source-SCC strategy: when the generated public method expand_scc returns True on a fresh diagram, every minimal trap space is an expanded leaf, every expanded leaf is a minimal trap space, and no stub is left"),
            ("source_text_expand_minimal_spaces_complete", "py_expand_minimal_spaces_complete", "C03 for the SOURCE TEXT: when the generated public methods report completion, every minimal trap space is found / everything is expanded"),
            ("source_text_expand_attractor_seeds_complete", "py_expand_attractor_seeds_MinFound", None), ("source_text_expand_bfs_complete", "py_expand_bfs_complete", None), ("source_text_expand_dfs_complete", "py_expand_dfs_complete", None),
            ("source_expand_minimal_spaces", "py_expand_minimal_spaces_spec", "translator tie: the function GENERATED from the current text of biobalm/_sd_algorithms/expand_minimal_spaces.py (with its nested make_skip_node; PySrcSdMin.v) equals the model's expand_min on every well-formed diagram, for every start node, limit, skip option and fuel, given the tape contract"),
@@ -435,6 +438,7 @@ free variable), its two assertions can never fire (expand_scc_no_assert) and its
            ("aseeds_expansion_terminates", "expand_aseeds_terminates", None),
            ("sanitize_clash_loop_terminates", "fresh_total", "the rename loop of sanitize_network_names needs at most one more round than there are variables"),
            ("scc_expansion_terminates", "expand_scc_terminates", "source-SCC strategy: fuel n + 2 always suffices"),
+           ("source_text_expand_scc_terminates", "py_api_expand_scc_terminates", "the same for the SOURCE TEXT: the generated public method expand_scc on a fresh diagram with fuel n + 2 neither runs out of fuel nor trips one of its assertions"),
            ("scc_expansion_no_assert", "expand_scc_no_assert", "neither assertion of the strategy can fail"),
            ("scc_expansion_edge_strict", "expand_scc_EdgeStrict", None),
            ("symbolic_filter_total", "compute_attractors_sym_total", "the candidate filter with the real reachability procedure never runs out of fuel")],
